@@ -3,6 +3,10 @@ package main
 import (
 	"fmt"
 	"strings"
+	"time"
+
+	"github.com/pip-services3-gox/pip-services3-expressions-gox/calculator"
+	"github.com/pip-services3-gox/pip-services3-expressions-gox/calculator/functions"
 
 	"github.com/pip-services3-gox/pip-services3-expressions-gox/calculator/parsers"
 	"github.com/pip-services3-gox/pip-services3-expressions-gox/tokenizers"
@@ -234,6 +238,10 @@ func propScaleTables(c *Ctx, which string) {
 			}
 			runSymCase(c, regs, repeatTo("<=><<=>>=<>", 64), 1)
 			runSymCase(c, regs, repeatTo("=>", 17), 1)
+			// long symbols: the reported text is the whole symbol whatever its length
+			long := repeatTo("<=>", n)
+			runSymCase(c, []symReg{{long, tokenizers.Special}, {long[:n-1], tokenizers.Keyword}, {[]rune("<="), tokenizers.Symbol}}, append(append([]rune(nil), long...), long[:n-1]...), 1)
+			runSymCase(c, []symReg{{long, tokenizers.Special}}, append(long[:n-2], 'x'), 1)
 		}
 		return
 	}
@@ -250,6 +258,16 @@ func propScaleTables(c *Ctx, which string) {
 			}
 		}
 		runCmapCase(c, ops, probes)
+	}
+	// hundreds of small registrations above U+00FF on top of a wide one, then a range that covers only the
+	// beginning of the wide one: what the wide one still covers beyond it must survive
+	for _, n := range []int{17, 255, 256, 300} {
+		ops := []mapOp{{'a', 0x100, 0xfffe, "1"}}
+		for i := 0; i < n; i++ {
+			ops = append(ops, mapOp{'a', 0x2000 + 3*i, 0x2000 + 3*i, []string{"2", "n"}[i%2]})
+		}
+		ops = append(ops, mapOp{'a', 0x100, 0x17f, "2"})
+		runCmapCase(c, ops, []int{0xff, 0x100, 0x17f, 0x180, 0x416, 0x2000, 0x2001, 0x2003, 0x4e16, 0xfffe})
 	}
 }
 
@@ -306,5 +324,65 @@ func propScaleScanner(c *Ctx) {
 		}
 		ops = append(ops, fmt.Sprintf("m%d", n/2), "r", "p", fmt.Sprintf("m%d", n), "r", "x")
 		runScanCase(c, content, ops)
+	}
+}
+
+// large collections: add / locate / find / remove on lists of 17..257 entries
+func propScaleCollections(c *Ctx) {
+	for _, n := range []int{17, 32, 33, 64, 257} {
+		var ops []string
+		for i := 0; i < n; i++ {
+			ops = append(ops, "a:"+strRunes(fmt.Sprintf("v%d", i)))
+		}
+		ops = append(ops, "l:"+strRunes("fresh"), "f:"+strRunes("FRESH"), "l:"+strRunes("Fresh"), "f:"+strRunes("v0"), "f:"+strRunes(fmt.Sprintf("V%d", n-1)),
+			"n:"+strRunes("v1"), "f:"+strRunes("v2"), "l:"+strRunes("v1"), "f:"+strRunes("v1"), "r:0", "f:"+strRunes(fmt.Sprintf("v%d", n-1)), "l:"+strRunes("another"), "f:"+strRunes("another"))
+		runCollCase(c, ops)
+	}
+}
+
+// the same compiled expression evaluated with different function tables in turn: each evaluation uses the
+// table it was given (what a fresh calculator gives with that table)
+func propScaleFunctionTables(c *Ctx) {
+	mk := func(k int) *functions.FunctionCollection {
+		fc := functions.NewFunctionCollection()
+		if k == 0 {
+			return fc // no functions at all
+		}
+		fc.Add(functions.NewDelegatedFunction("F", func(p []*variants.Variant, o variants.IVariantOperations) (*variants.Variant, error) {
+			return variants.VariantFromInteger(10 * k), nil
+		}))
+		fc.Add(functions.NewDelegatedFunction("G", func(p []*variants.Variant, o variants.IVariantOperations) (*variants.Variant, error) {
+			return variants.VariantFromInteger(k), nil
+		}))
+		return fc
+	}
+	for _, expr := range []string{"F() + G()", "F(1) * 2", "G() + 1 + F()", "Max(F(), 3)"} {
+		for _, seq := range [][]int{{1, 1, 2, 0, 1, 2}, {0, 1, 0}, {2, 1}} {
+			op := fmt.Sprintf("ftables %s %v", strRunes(expr), seq)
+			c.record(op, true)
+			c.count("function-table-sequence")
+			var note string
+			st := safeCallT(5*time.Second, func() string {
+				calc := calculator.NewExpressionCalculator()
+				calc.SetExpression(expr)
+				for i, k := range seq {
+					tbl := mk(k)
+					if strings.HasPrefix(expr, "Max") && k != 0 {
+						tbl.Add(functions.NewDefaultFunctionCollection().FindByName("Max"))
+					}
+					got := outcome(calc.EvaluateUsingVariablesAndFunctions(nil, tbl))
+					fresh := calculator.NewExpressionCalculator()
+					fresh.SetExpression(expr)
+					want := outcome(fresh.EvaluateUsingVariablesAndFunctions(nil, tbl))
+					if got != want && note == "" {
+						note = fmt.Sprintf("evaluation #%d with function table %d gives %s; a calculator that never saw another table gives %s", i, k, got, want)
+					}
+				}
+				return ""
+			})
+			if st != "" || note != "" {
+				c.fail(Failure{Kind: "oracle", Op: op, Impl: st, Note: note})
+			}
+		}
 	}
 }
